@@ -583,10 +583,12 @@ func topoAll(fn *ssa.Function) []*ssa.BasicBlock {
 	seen := map[*ssa.BasicBlock]bool{}
 	var post []*ssa.BasicBlock
 	var dfs func(b *ssa.BasicBlock)
+	// successors are visited last-first so that, in the reverse post order, a
+	// loop's body precedes the blocks after the loop
 	dfs = func(b *ssa.BasicBlock) {
 		seen[b] = true
-		for _, s := range b.Succs {
-			if !seen[s] {
+		for i := len(b.Succs) - 1; i >= 0; i-- {
+			if s := b.Succs[i]; !seen[s] {
 				dfs(s)
 			}
 		}
